@@ -179,6 +179,12 @@ def absorb(ctx):
                         d = versionless(c.args[1].val)
                         if d == g['dot'] or (is_call(d, 'from') and d[2] and versionless(d[2][0]) == g['dot']):
                             sites.append(bb)
+                elif call_name(c.term) == 'insert' and len(c.args) == 3 and c.args[0].is_mut_ref and bb in r.reachable \
+                        and versionless(c.args[0].val) == ('field', g['clock'], 'dots') \
+                        and versionless(c.args[1].val) == ('field', g['dot'], 'actor') and versionless(c.args[2].val) == ('field', g['dot'], 'counter'):
+                    # under the gate (clock.get(actor) < counter) storing the counter directly is what `apply` does; the store is
+                    # only looked for on the paths the gate {Lt} leaves (GATE keeps every state write of the arm there)
+                    sites.append(bb)
             det = {'clock': fmt(g['clock']), 'dot': fmt(g['dot']), 'absorb_sites': [block_line(it, b) for b in sites]}
             if not sites:
                 ctx.fail(name, body, 'the op dot is never joined into %s' % fmt(g['clock']), details=det, props=prop_of[inst])
